@@ -42,7 +42,90 @@ Section CounterProofs.
   Theorem counter_of_app v l1 l2 :
     count eqb v (counter_of eqb (l1 ++ l2)) = (count eqb v (counter_of eqb l1) + count eqb v (counter_of eqb l2))%nat.
   Proof. rewrite !counter_of_count. apply occurrences_app. Qed.
+
+  (* ---- counting in batches (Counter.update adds) ---- *)
+  Lemma count_counter_add_n v w n c :
+    count eqb v (counter_add_n eqb w n c) = (count eqb v c + (if eqb v w then n else 0))%nat.
+  Proof.
+    induction c as [|[x m] c IH]; simpl.
+    - destruct (eqb v w); reflexivity.
+    - destruct (eqb w x) eqn:Ewx; simpl.
+      + apply eqb_eq in Ewx. subst x. destruct (eqb v w); lia.
+      + destruct (eqb v x) eqn:Evx.
+        * destruct (eqb v w) eqn:Evw; [|lia].
+          apply eqb_eq in Evx, Evw. subst. rewrite eqb_refl in Ewx. discriminate.
+        * apply IH.
+  Qed.
+
+  (* total count carried for v by a list of (value, count) items *)
+  Definition weight (v : A) (d : list (A * nat)) : nat :=
+    list_sum (map snd (filter (fun e => eqb v (fst e)) d)).
+
+  Lemma weight_cons v x n d : weight v ((x, n) :: d) = ((if eqb v x then n else 0) + weight v d)%nat.
+  Proof. unfold weight. cbn [filter fst]. destruct (eqb v x); reflexivity. Qed.
+
+  Lemma count_counter_update v d : forall c,
+    count eqb v (counter_update eqb c d) = (count eqb v c + weight v d)%nat.
+  Proof.
+    unfold counter_update. induction d as [|[x n] d IH]; intros c; cbn [fold_left fst snd].
+    - unfold weight. simpl. lia.
+    - rewrite IH, count_counter_add_n, weight_cons. lia.
+  Qed.
+
+  Lemma weight_counter_add v w c :
+    weight v (counter_add eqb w c) = (weight v c + (if eqb v w then 1 else 0))%nat.
+  Proof.
+    induction c as [|[x n] c IH]; cbn [counter_add].
+    - rewrite weight_cons. unfold weight. simpl. lia.
+    - destruct (eqb w x) eqn:Ewx.
+      + apply eqb_eq in Ewx. subst x. rewrite !weight_cons. destruct (eqb v w); lia.
+      + rewrite !weight_cons, IH. lia.
+  Qed.
+
+  Lemma weight_counter_of v l : weight v (counter_of eqb l) = occurrences eqb v l.
+  Proof.
+    unfold counter_of.
+    assert (H : forall c, weight v (fold_left (fun c x => counter_add eqb x c) l c) = (weight v c + occurrences eqb v l)%nat).
+    { unfold occurrences. induction l as [|x l IH]; intros c; simpl; [lia|].
+      rewrite IH, weight_counter_add. destruct (eqb v x); simpl; lia. }
+    rewrite H. reflexivity.
+  Qed.
+
+  Lemma batches_concat size (Hs : (0 < size)%nat) : forall fuel (l : list A), (length l <= fuel)%nat ->
+    concat (batches fuel size l) = l.
+  Proof.
+    induction fuel as [|f IH]; intros l Hf.
+    - destruct l; [reflexivity|simpl in Hf; lia].
+    - destruct l as [|x l]; [reflexivity|]. cbn [batches concat].
+      rewrite IH.
+      + apply firstn_skipn.
+      + rewrite skipn_length. cbn [length] in Hf |- *. lia.
+  Qed.
+
+  Lemma count_fold_batches v bs : forall c,
+    count eqb v (fold_left (fun c b => counter_update eqb c (counter_of eqb b)) bs c)
+    = (count eqb v c + occurrences eqb v (concat bs))%nat.
+  Proof.
+    induction bs as [|b bs IH]; intros c; cbn [fold_left concat].
+    - unfold occurrences. simpl. lia.
+    - rewrite IH, count_counter_update, weight_counter_of, occurrences_app. lia.
+  Qed.
+
+  (* whatever the (positive) batch size, counting in batches gives every value its number of occurrences *)
+  Theorem counter_batched_count size v l : (0 < size)%nat ->
+    count eqb v (counter_batched eqb size l) = occurrences eqb v l.
+  Proof.
+    intros Hs. unfold counter_batched. rewrite count_fold_batches.
+    rewrite (batches_concat size Hs) by lia. reflexivity.
+  Qed.
+
+  Corollary counter_batched_counter_of size v l : (0 < size)%nat ->
+    count eqb v (counter_batched eqb size l) = count eqb v (counter_of eqb l).
+  Proof. intros Hs. rewrite counter_batched_count, counter_of_count by assumption. reflexivity. Qed.
 End CounterProofs.
+
+Lemma hist_batch_size_pos : (0 < hist_batch_size)%nat.
+Proof. unfold hist_batch_size. lia. Qed.
 
 (* ------------------------------------------------------------------ generic list facts *)
 Lemma mapM_app {A B} (f : A -> option B) l1 l2 :
@@ -302,7 +385,8 @@ Lemma histogram_paths res k r fb (w : list Z) (val : list Z -> Z) (fits : bool) 
   (if fits then
      Some (match rows_of r with
            | [] => []
-           | _ => if Nat.eqb (r_nq r) 0 then [(0, length (rows_of r))] else counter_of Z.eqb (map (dot w) (rows_of r))
+           | _ => if Nat.eqb (r_nq r) 0 then [(0, length (rows_of r))]
+                  else counter_batched Z.eqb hist_batch_size (map (dot w) (rows_of r))
            end)
    else multi_hist Z.eqb res [k] (fun e => slow_fold fb (hd [] e))) = Some h ->
   forall v, count Z.eqb v h = occurrences Z.eqb v (map val (rows_of r)).
@@ -317,7 +401,7 @@ Proof.
       intros x Hin. apply in_map_iff in Hin. destruct Hin as (row & <- & Hin).
       rewrite Forall_forall in Hlen. specialize (Hlen row Hin). rewrite En in Hlen.
       destruct row; [exact H0|discriminate].
-    + apply Nat.eqb_neq in En. rewrite counter_of_count by exact Zeqb_eq.
+    + apply Nat.eqb_neq in En. rewrite counter_batched_count by (exact Zeqb_eq || exact hist_batch_size_pos).
       f_equal. apply map_ext_in. intros row Hin. apply Hfast; [first [exact Hin|rewrite Er; exact Hin]|exact En].
   - unfold multi_hist in Hh. rewrite (multi_samples_one res k r Hs Hl) in Hh.
     rewrite mapM_map in Hh.
@@ -389,7 +473,7 @@ Lemma hist_base_core res k r fb bs (fits : bool) vals :
      Some (match rows_of r with
            | [] => []
            | _ => if Nat.eqb (r_nq r) 0 then [(0, length (rows_of r))]
-                  else counter_of Z.eqb (map (dot (weights_list bs)) (rows_of r))
+                  else counter_batched Z.eqb hist_batch_size (map (dot (weights_list bs)) (rows_of r))
            end)
    else multi_hist Z.eqb res [k] (fun e => slow_fold fb (hd [] e))) = Some h /\
   forall v, count Z.eqb v h = occurrences Z.eqb v vals.
